@@ -233,7 +233,12 @@ def writeFileHandle (op : String) (bs : Bytes) (cap : Nat) (sp : Spec) (impl : S
     let script := recordScript sp cap ds
     let r := writeFile cap ds script
     let old := writeFileOld cap ds script
-    let m := s!"{stName r.2} {r.1.length} {hex16 (fnv r.1)}"
+    -- After a TRANSIENT error (mode `e`) the sink accepts again, and what the drop of the BufWriter still delivers
+    -- is whatever happened to be buffered: that depends on how the serialiser groups its writes, which the
+    -- property leaves free. The model then predicts nothing (`*`); the spec below judges alone. For permanent
+    -- failures the sink ends with exactly the first N canonical bytes whatever the grouping.
+    let transient : Bool := match sp.limit with | some (n, 2) => decide (n < total) | _ => false
+    let m := if transient then "*" else s!"{stName r.2} {r.1.length} {hex16 (fnv r.1)}"
     let v := match impl.splitOn " " with
       | ["ok", l, h] => if l == toString total && h == hex16 (fnv canon) then "holds" else "fails:ok-but-incomplete"
       | ["err", l, h] => match l.toNat? with
